@@ -109,77 +109,110 @@ func WF(a any) bool {
 //@   props C10 C13 C06
 //@   requires e == nil || WF(e)
 //@   ensures  err == nil && e != nil ==> e.Op == Equals && IsTerm(e.Left)
+//@   ensures[accepts-every-such-node] e != nil && (e.Op == Equals && IsTerm(e.Left)) ==> err == nil
+//@   ensures[nothing-to-check] e == nil ==> err == nil
 
 //@ func validateCompare
 //@   props C10 C13 C06
 //@   requires e == nil || WF(e)
 //@   ensures  err == nil && e != nil ==> (e.Op == Greater || e.Op == Less || e.Op == GreaterEq || e.Op == LessEq) && IsTerm(e.Left)
+//@   ensures[accepts-every-such-node] e != nil && ((e.Op == Greater || e.Op == Less || e.Op == GreaterEq || e.Op == LessEq) && IsTerm(e.Left)) ==> err == nil
+//@   ensures[nothing-to-check] e == nil ==> err == nil
 
 //@ func validateAnd
 //@   props C10 C13
 //@   ensures  err == nil && e != nil ==> e.Left != nil && e.Right != nil
+//@   ensures[accepts-every-such-node] e != nil && (e.Left != nil && e.Right != nil) ==> err == nil
+//@   ensures[nothing-to-check] e == nil ==> err == nil
 
 //@ func validateOr
 //@   props C10 C13
 //@   ensures  err == nil && e != nil ==> e.Left != nil && e.Right != nil
+//@   ensures[accepts-every-such-node] e != nil && (e.Left != nil && e.Right != nil) ==> err == nil
+//@   ensures[nothing-to-check] e == nil ==> err == nil
 
 //@ func validateNot
 //@   props C10 C13
 //@   ensures  err == nil && e != nil ==> e.Left != nil && e.Right == nil
+//@   ensures[accepts-every-such-node] e != nil && (e.Left != nil && e.Right == nil) ==> err == nil
+//@   ensures[nothing-to-check] e == nil ==> err == nil
 
 //@ func validateMust
 //@   props C10 C13
 //@   ensures  err == nil && e != nil ==> e.Left != nil && e.Right == nil
+//@   ensures[accepts-every-such-node] e != nil && (e.Left != nil && e.Right == nil) ==> err == nil
+//@   ensures[nothing-to-check] e == nil ==> err == nil
 
 //@ func validateMustNot
 //@   props C10 C13
 //@   ensures  err == nil && e != nil ==> e.Left != nil && e.Right == nil
+//@   ensures[accepts-every-such-node] e != nil && (e.Left != nil && e.Right == nil) ==> err == nil
+//@   ensures[nothing-to-check] e == nil ==> err == nil
 
 //@ func validateBoost
 //@   props C10 C13
 //@   ensures  err == nil && e != nil ==> e.Left != nil && e.Right == nil
+//@   ensures[accepts-every-such-node] e != nil && (e.Left != nil && e.Right == nil) ==> err == nil
+//@   ensures[nothing-to-check] e == nil ==> err == nil
 
 //@ func validateFuzzy
 //@   props C10 C13
 //@   ensures  err == nil && e != nil ==> e.Left != nil && e.Right == nil
+//@   ensures[accepts-every-such-node] e != nil && (e.Left != nil && e.Right == nil) ==> err == nil
+//@   ensures[nothing-to-check] e == nil ==> err == nil
 
 //@ func validateRange
 //@   fuel 3
 //@   props C10 C13 C06
 //@   requires e == nil || WF(e)
 //@   ensures[bounds-are-terms] err == nil && e != nil ==> IsTerm(e.Left) && IsBoundary(e.Right)
+//@   ensures[accepts-every-such-node] e != nil && (IsTerm(e.Left) && IsBoundary(e.Right)) ==> err == nil
+//@   ensures[nothing-to-check] e == nil ==> err == nil
 
 //@ func validateLiteral
 //@   props C10 C13
 //@   ensures  err == nil && e != nil ==> e.Right == nil && PlainValue(e.Left)
+//@   ensures[accepts-every-such-node] e != nil && (e.Right == nil && PlainValue(e.Left)) ==> err == nil
+//@   ensures[nothing-to-check] e == nil ==> err == nil
 
 //@ func validateWild
 //@   props C10 C13
 //@   ensures  err == nil && e != nil ==> e.Right == nil && PlainValue(e.Left)
+//@   ensures[accepts-every-such-node] e != nil && (e.Right == nil && PlainValue(e.Left)) ==> err == nil
+//@   ensures[nothing-to-check] e == nil ==> err == nil
 
 //@ func validateRegexp
 //@   props C10 C13
 //@   ensures  err == nil && e != nil ==> e.Right == nil && PlainValue(e.Left)
+//@   ensures[accepts-every-such-node] e != nil && (e.Right == nil && PlainValue(e.Left)) ==> err == nil
+//@   ensures[nothing-to-check] e == nil ==> err == nil
 
 //@ func validateLike
 //@   props C10 C13 C06
 //@   requires e == nil || WF(e)
 //@   ensures  err == nil && e != nil ==> IsTerm(e.Left) && IsPattern(e.Right)
+//@   ensures[accepts-every-such-node] e != nil && (IsTerm(e.Left) && IsPattern(e.Right)) ==> err == nil
+//@   ensures[nothing-to-check] e == nil ==> err == nil
 
 //@ func validateIn
 //@   props C10 C13 C06
 //@   requires e == nil || WF(e)
 //@   ensures  err == nil && e != nil ==> IsTerm(e.Left) && IsListExpr(e.Right)
+//@   ensures[accepts-every-such-node] e != nil && (IsTerm(e.Left) && IsListExpr(e.Right)) ==> err == nil
+//@   ensures[nothing-to-check] e == nil ==> err == nil
 
 //@ func validateList
 //@   props C10 C13 C06
 //@   requires e == nil || WF(e)
 //@   ensures  err == nil && e != nil ==> e.Right == nil && IsTermList(e.Left)
+//@   ensures[accepts-every-such-node] e != nil && (e.Right == nil && IsTermList(e.Left)) ==> err == nil
+//@   ensures[nothing-to-check] e == nil ==> err == nil
 
 //@ func isListOfLiteralExprs
 //@   props C10 C13
 //@   requires WF(in)
 //@   ensures  result ==> IsTermList(in)
+//@   ensures[complete] IsTermList(in) ==> result
 //@   loop 0: rangeinv verifspec.Forall(0, idx, func(i int) bool { return IsTerm(e[i]) })
 
 //@ func Validate
@@ -187,6 +220,7 @@ func WF(a any) bool {
 //@   structural
 //@   requires WF(in)
 //@   ensures  err == nil ==> ShapeV(in)
+//@   ensures[accepts-every-well-shaped-tree] ShapeV(in) ==> err == nil
 
 // ---- typing of parser-built trees (used for the "%!" clause of C01) ------------------
 
